@@ -7,6 +7,7 @@ pub mod c01;
 pub mod c02;
 pub mod c03;
 pub mod c05;
+pub mod c06;
 pub mod c17;
 
 pub struct Prop {
@@ -17,7 +18,7 @@ pub struct Prop {
 }
 
 pub fn all() -> Vec<Prop> {
-    vec![c01::PROP, c02::PROP, c03::PROP, c05::PROP, c17::PROP]
+    vec![c01::PROP, c02::PROP, c03::PROP, c05::PROP, c06::PROP, c17::PROP]
 }
 
 pub fn lookup(id: &str) -> Option<Prop> {
